@@ -8,7 +8,7 @@ from .common import Out, import_mbi, HarnessError
 ID = 'C17'
 RULE = ('Hypothesis draws a domain (2-5 attrs, sizes 1-3), 1-6 distinct cliques (trees, loops, dense, size-3 cliques '
         'whose pairwise intersections intersect again; attributes listed in any order), finite potentials of scale <=3 on '
-        'any region, total in {1,10,1000,0.5}, damping in (0.05,0.9), and runs RegionGraph(convex=True) for up to 20000 '
+        'any region, total in {1,10,1000,0.5}, damping in (0.05,0.9), and runs RegionGraph(convex=True) for up to 5000 '
         'sweeps with convergence 1e-9*total. Precondition "run to convergence": primal_feasibility <= 1e-9*total, otherwise '
         'the case is inconclusive. Oracle: an independently built region closure and the optimum of max sum <theta,b> + '
         'sum H(b) under local consistency, solved through its smooth dual (L-BFGS + BFGS, dual gradient < 1e-8). '
@@ -56,7 +56,7 @@ def run_case(case):
     domain = mbi.Domain(attrs, shape)
     total = float(case['total'])
     cliques = [tuple(c) for c in case['cliques']]
-    rg = mbi.RegionGraph(domain, cliques, case['total'], convex=True, iters=20000, convergence=1e-9 * total, damping=case['damping'])
+    rg = mbi.RegionGraph(domain, cliques, case['total'], convex=True, iters=5000, convergence=1e-9 * total, damping=case["damping"])
     rng = np.random.Generator(np.random.PCG64(case['seed']))
     pot, theta = {}, {}
     for r in rg.cliques:
@@ -88,14 +88,24 @@ def run_case(case):
         # transposing its potential) is the same problem; it must not converge there and fail to converge here.
         cl2 = [tuple(sorted(c)) for c in cliques]
         if cl2 != cliques:
-            rg2 = mbi.RegionGraph(domain, cl2, case['total'], convex=True, iters=20000, convergence=1e-9 * total, damping=case['damping'])
+            rg2 = mbi.RegionGraph(domain, cl2, case['total'], convex=True, iters=5000, convergence=1e-9 * total, damping=case["damping"])
             pot2 = {}
             for r2 in rg2.cliques:
                 src = [k for k in pot if set(k) == set(r2)]
                 pot2[r2] = pot[src[0]].transpose(r2) if src else mbi.Factor.zeros(domain.project(r2))
             mu2 = rg2.belief_propagation(mbi.CliqueVector(pot2))
             if rg2.primal_feasibility(mu2) <= 1e-9 * total:
-                return finish(out.fail('order_dependent_convergence', 'no convergence in 20000 sweeps (feasibility %g) with cliques %s, but the same problem with alphabetically listed cliques converges' % (feas, cliques)), rg, case)
+                return finish(out.fail('order_dependent_convergence', 'no convergence in 5000 sweeps (feasibility %g) with cliques %s, but the same problem with alphabetically listed cliques converges' % (feas, cliques)), rg, case)
+        # "run to convergence": the iteration may also have become stationary at tables that do NOT agree (the library's
+        # own stopping rule only looks at feasibility).  Continue from the warm messages and compare successive outputs.
+        rg.iters = 300
+        mu_a = rg.belief_propagation(mbi.CliqueVector(pot))
+        mu_b = rg.belief_propagation(mbi.CliqueVector(pot))
+        drift = max(float(np.max(np.abs(np.asarray(mu_a[k].values, float) - np.asarray(mu_b[k].values, float)))) for k in mu_a)
+        feas2 = rg.primal_feasibility(mu_b)
+        if drift <= 1e-10 * total and feas2 > 1e-6 * total:
+            return finish(out.fail('stationary_but_inconsistent', 'after %d sweeps the tables no longer change (max change %.2g over 300 sweeps) but parents and children still disagree by %.3g on average (total %g; cliques %s)' % (
+                5600, drift, feas2, total, cliques)), rg, case)
         out.inconclusive = True
         out.classes.append('not_converged')
         return finish(out, rg, case)
